@@ -310,23 +310,53 @@ func runC17(r *Run) {
 	// ---- host
 	ho := r.Rule("C17.host", "the host field is only ever assigned the host result of net.SplitHostPort (brackets of IPv6 literals stripped, port separated) and an empty host is rejected", 2)
 	{
-		for _, a := range fieldAccesses(parse, hostF) {
-			if a.Kind != "store" {
-				continue
+		// on every success path the value last stored into Host is the host result of net.SplitHostPort
+		// (resolved on the path: it may arrive through the merged result of a normalised helper)
+		hostStores := indexStores(parse, hostF)
+		isSplitHost := func(v ssa.Value) bool {
+			e, ok := v.(*ssa.Extract)
+			if !ok || e.Index != 0 {
+				return false
 			}
-			st := a.Instr.(*ssa.Store)
-			e, ok := st.Val.(*ssa.Extract)
-			okv := false
-			if ok && e.Index == 0 {
-				if c, isC := e.Tuple.(*ssa.Call); isC && isPkgFuncCall(c, "net", "SplitHostPort") {
-					okv = true
-				}
-			}
-			ho.Instance("host store "+exprDepth(st.Val, 0), true, map[string]string{"host_from": exprDepth(st.Val, 0)})
-			if !okv {
-				ho.Violation(parse, instrPos(st), "Host = "+exprDepth(st.Val, 0), "the host is not the host part returned by net.SplitHostPort: an IPv6 literal keeps its brackets (String() then yields [[::1]]:3478, which parses to a different URI) or the port stays attached")
-			}
+			c, isC := e.Tuple.(*ssa.Call)
+			return isC && isPkgFuncCall(c, "net", "SplitHostPort")
 		}
+		rep := map[ssa.Instruction]bool{}
+		q := &PathQuery{P: p, Fn: parse}
+		stored := map[int]ssa.Value{}
+		q.Step = func(in ssa.Instruction, deferred bool, st uint64, c *PathCtx) (uint64, bool) {
+			if i, ok := hostStores.idx[in]; ok {
+				// remember what this store wrote on this path (by store index and resolved value)
+				v := c.Resolve(deref(c.Resolve(hostStores.stores[i-1].Val)))
+				if isSplitHost(v) {
+					return uint64(i)<<1 | 1, false
+				}
+				stored[i] = v
+				return uint64(i) << 1, false
+			}
+			return st, false
+		}
+		nSucc := 0
+		q.AtReturn = func(ret *ssa.Return, st uint64, c *PathCtx) {
+			if c.NilState(ret.Results[idx]) == -1 {
+				return
+			}
+			nSucc++
+			i := int(st >> 1)
+			if st&1 == 1 || rep[ret] {
+				return
+			}
+			rep[ret] = true
+			desc := "never assigned"
+			pos := instrPos(ret)
+			if i > 0 {
+				desc = exprDepth(stored[i], 0)
+				pos = instrPos(hostStores.stores[i-1])
+			}
+			ho.ViolationPath(parse, pos, "Host = "+desc, "the host is not the host part returned by net.SplitHostPort: an IPv6 literal keeps its brackets (String() then yields [[::1]]:3478, which parses to a different URI) or the port stays attached", c.Witness(parse, ret))
+		}
+		q.Run()
+		ho.Instance("host on success paths", true, map[string]int{"success_paths": nSucc, "host_stores": len(hostStores.stores)})
 		// empty host rejected: success returns are dominated by the false edge of host == ""
 		okEmpty := false
 		for _, ci := range ifsOn(parse, func(v ssa.Value) bool {
@@ -650,16 +680,44 @@ func checkURIString(r *Run, rc *RuleCtx, uc *uriConsts, schemeF, hostF, portF, p
 	r.Analysed(fn)
 	// JoinHostPort(host, Itoa(port))
 	okJoin := false
+	// a value that is the given field: directly, or a parameter of an unexported helper to which every
+	// library caller passes that field
+	isField := func(v ssa.Value, fv *types.Var) bool {
+		v = deref(v)
+		if valueIsLoadOfField(v, fv) {
+			return true
+		}
+		if pa, isP := v.(*ssa.Parameter); isP {
+			if args, known := callerArgsOf(pa); known {
+				for _, a := range args {
+					if !valueIsLoadOfField(deref(a), fv) {
+						return false
+					}
+				}
+				return true
+			}
+		}
+		return false
+	}
+	scan := func(g *ssa.Function) {
+		eachInstr(g, func(b *ssa.BasicBlock, i int, in ssa.Instruction) {
+			if c, ok := in.(*ssa.Call); ok && isPkgFuncCall(c, "net", "JoinHostPort") {
+				h := isField(c.Call.Args[0], hostF)
+				pOK := false
+				if ic, ok := c.Call.Args[1].(*ssa.Call); ok && isPkgFuncCall(ic, "strconv", "Itoa") && isField(ic.Call.Args[0], portF) {
+					pOK = true
+				}
+				if h && pOK {
+					okJoin = true
+				}
+			}
+		})
+	}
+	scan(fn)
 	eachInstr(fn, func(b *ssa.BasicBlock, i int, in ssa.Instruction) {
-		if c, ok := in.(*ssa.Call); ok && isPkgFuncCall(c, "net", "JoinHostPort") {
-			h := valueIsLoadOfField(deref(c.Call.Args[0]), hostF)
-			pOK := false
-			if ic, ok := c.Call.Args[1].(*ssa.Call); ok && isPkgFuncCall(ic, "strconv", "Itoa") && valueIsLoadOfField(deref(ic.Call.Args[0]), portF) {
-				pOK = true
-			}
-			if h && pOK {
-				okJoin = true
-			}
+		if sc := staticCallee(in); sc != nil && p.isLibFn(sc) && sc.Object() != nil && !sc.Object().Exported() {
+			r.Analysed(sc)
+			scan(sc)
 		}
 	})
 	rc.Instance("JoinHostPort", true, nil)
@@ -786,7 +844,7 @@ func checkDialTable(r *Run, rc *RuleCtx, dial *ssa.Function, uc *uriConsts, sche
 				return st, false
 			}
 			q.AtReturn = func(ret *ssa.Return, st uint64, c *PathCtx) {
-				v := ret.Results[idx]
+				v := c.Resolve(deref(c.Resolve(ret.Results[idx])))
 				if errUnsup != nil && loadsGlobal(v, errUnsup) {
 					if st&(dUDP|dTCP|dDialUDP) != 0 {
 						outcomes["unsupported after dialling"] = true
